@@ -12,7 +12,7 @@ VERIF = os.path.dirname(os.path.dirname(os.path.abspath(__file__)))
 BUILD = os.path.join(VERIF, 'build')
 REPO = os.environ.get('VERIF_REPO', '/repo')
 
-ASSUME_PAT = re.compile(r'\b(assume\s*\(|admit\s*\(|external_body|assume_specification|verifier::external\b|verifier::external_fn_specification|verifier::external_type_specification|uninterp\s+spec)')
+ASSUME_PAT = re.compile(r'\b(assume\s*\(|admit\s*\(|external_body|assume_specification|verifier::external\b|verifier::external_fn_specification|verifier::external_type_specification|uninterp\s+spec|axiom\s+fn|Partial(?:Eq|Ord)SpecImpl\s+for)')
 
 
 class Undecided(Exception):
@@ -77,7 +77,9 @@ def scan_assumptions(text):
                     if t and not t.startswith('#[') and not t.startswith('//'):
                         item = t
                         break
-            item = re.sub(r'\s*[:=({].*$', '', item)[:100]
+            if 'SpecImpl' in m.group(1):
+                item = s
+            item = re.sub(r'\s*[=({].*$', '', item)[:100] if 'SpecImpl' in m.group(1) else re.sub(r'\s*[:=({].*$', '', item)[:100]
             out.append({'line': k, 'kind': m.group(1).strip(' ('), 'item': item})
     return out
 
